@@ -36,6 +36,8 @@ type c10pkg[E comparable, P c10elt[E], D any] struct {
 	fields    func(d *D) (uint64, [5]E) // cardInv, gen, genInv, mulGen, mulGenInv
 	writeTo   func(d *D, w io.Writer) (int64, error)
 	readFrom  func(r io.Reader) (*D, int64, error)
+	readInto  func(d *D, r io.Reader) (int64, error)  // ReadFrom on an existing receiver
+	tables    func(d *D) (ct, cti []E, tw, twi [][]E) // the four accessors, nil where they return an error
 	generator func(m uint64) (E, error)
 	mulGen    func() E
 }
@@ -61,6 +63,7 @@ type c10field interface {
 	BitRevBig(logn int, mult uint64) (uint64, bool)
 	DomainInfo(m uint64, shift *big.Int) []*big.Int
 	ReadFrom(chunk int, c c10cfg, v []*big.Int) string
+	ReadInto(chunk int, rcv string, c c10cfg, v []*big.Int, tab bool) string
 	WriteBytes(c c10cfg) []byte
 	ReadBytes(chunk int, data []byte) string
 }
@@ -235,6 +238,132 @@ func (p *c10pkg[E, P, D]) ReadFrom(chunk int, c c10cfg, v []*big.Int) string {
 	return boolStr(same) + " " + c10vec(p.unvec(a))
 }
 
+// receiver token of `readinto`: zero | <logn ≤ c>:<0|1>:<shift|->:<n|r>  (mirror of Model/FFT.lean rcvOK)
+func c10parseRcv(s string) (zero bool, c c10cfg, viaRead bool, ok bool) {
+	if s == "zero" {
+		return true, c, false, true
+	}
+	t := strings.Split(s, ":")
+	if len(t) != 4 {
+		return
+	}
+	l, ok1 := c10hexInt(t[0])
+	if !ok1 || l > 12 || (t[1] != "0" && t[1] != "1") || (t[3] != "n" && t[3] != "r") {
+		return
+	}
+	c = c10cfg{logn: l, precomp: t[1] == "1"}
+	if t[2] != "-" {
+		v, good := new(big.Int).SetString(t[2], 16)
+		if !good || v.Sign() < 0 {
+			return
+		}
+		c.shift = v
+	}
+	return false, c, t[3] == "r", true
+}
+
+// ReadFrom INTO a receiver that already holds a domain (token rcv): the source domain c is serialised, decoded into the receiver, and the
+// receiver is then observed: bytes read, exported fields, precompute flag, and either five transforms of v (FFT DIF/DIT on the coset,
+// FFTInverse DIF/DIT on the coset, FFT DIF) or (tab) the four table accessors checked against the powers of the decoded shift / generator
+func (p *c10pkg[E, P, D]) ReadInto(chunk int, rcv string, c c10cfg, v []*big.Int, tab bool) string {
+	zero, rc, viaRead, ok := c10parseRcv(rcv)
+	if !ok {
+		return "bad-op"
+	}
+	d := new(D)
+	if !zero {
+		d = p.domain(rc)
+		if viaRead { // the receiver was itself filled by an earlier ReadFrom
+			var b0 bytes.Buffer
+			if _, err := p.writeTo(d, &b0); err != nil {
+				return "err:write"
+			}
+			d = new(D)
+			if _, err := p.readInto(d, &b0); err != nil {
+				return "err:read"
+			}
+		}
+	}
+	var buf bytes.Buffer
+	w, err := p.writeTo(p.domain(c), &buf)
+	if err != nil || int(w) != buf.Len() {
+		return "err:write"
+	}
+	buf.Write([]byte{0xde, 0xad, 0xbe, 0xef, 0x01}) // the stream continues after the domain
+	n, err := p.readInto(d, &chunkReader{&buf, chunk})
+	if err != nil {
+		return "err:read"
+	}
+	card, f := p.fields(d)
+	out := fmt.Sprintf("%x %x %s %s %s %s %s %s", n, card, hexBig(p.big(f[0])), hexBig(p.big(f[1])), hexBig(p.big(f[2])),
+		hexBig(p.big(f[3])), hexBig(p.big(f[4])), boolStr(p.precompFlag(d)))
+	if tab {
+		ct, cti, tw, twi := p.tables(d)
+		pows := func(t []E, w E, n uint64) string {
+			if t == nil {
+				return "err"
+			}
+			if uint64(len(t)) != n {
+				return "stale"
+			}
+			var one, acc E
+			P(&one).SetUint64(1)
+			acc = one
+			for i := range t {
+				if t[i] != acc {
+					return "stale"
+				}
+				x, y := p.big(acc), p.big(w)
+				P(&acc).SetBigInt(x.Mul(x, y).Mod(x, p.modulus))
+			}
+			return "ok"
+		}
+		stages := func(t [][]E, w E) string {
+			if t == nil {
+				return "err"
+			}
+			nbStages := 0
+			for uint64(1)<<nbStages < card {
+				nbStages++
+			}
+			if len(t) != nbStages {
+				return "stale"
+			}
+			if nbStages == 0 {
+				return "ok"
+			}
+			if r := pows(t[0], w, 1+card/2); r != "ok" {
+				return r
+			}
+			for i := 1; i < nbStages; i++ {
+				if len(t[i]) != 1+(1<<(nbStages-i-1)) {
+					return "stale"
+				}
+				for j := range t[i] {
+					if t[i][j] != t[0][j<<i] {
+						return "stale"
+					}
+				}
+			}
+			return "ok"
+		}
+		return out + " " + pows(ct, f[3], card) + " " + pows(cti, f[4], card) + " " + stages(tw, f[1]) + " " + stages(twi, f[2])
+	}
+	if uint64(len(v)) != card {
+		return out + " -"
+	}
+	for _, k := range [][3]bool{{true, true, false}, {false, true, false}, {true, true, true}, {false, true, true}, {true, false, false}} {
+		a := p.vec(v)
+		if k[2] {
+			p.inv(d, a, k[0], k[1], 0)
+		} else {
+			p.fft(d, a, k[0], k[1], 0)
+		}
+		out += " " + c10vec(p.unvec(a))
+	}
+	return out
+}
+
 func (p *c10pkg[E, P, D]) WriteBytes(c c10cfg) []byte {
 	var buf bytes.Buffer
 	if _, err := p.writeTo(p.domain(c), &buf); err != nil {
@@ -353,6 +482,19 @@ func execC10(a []string) string {
 			return "bad-op"
 		}
 		return f.ReadFrom(chunk, c, v)
+	case "readinto", "readintotab": // <chunk> <rcv> + the common argument block (source domain; dec / coset / nbTasks unused)
+		if len(a) < 3 {
+			return "bad-op"
+		}
+		chunk, ok0 := c10hexInt(a[1])
+		if _, _, _, okr := c10parseRcv(a[2]); !okr {
+			return "bad-op"
+		}
+		f, c, v, ok := c10args(a[3:])
+		if !ok || !ok0 || chunk < 1 {
+			return "bad-op"
+		}
+		return f.ReadInto(chunk, a[2], c, v, a[0] == "readintotab")
 	case "write": // <field> <q> <omega> <logn> <precomp> <g> <custom> <nbytes>
 		if len(a) != 9 {
 			return "bad-op"
@@ -622,6 +764,80 @@ func genC10(g *gen) {
 			}
 		}
 	}
+	// (e'') ReadFrom INTO a dirty receiver (ops readinto / readintotab): receiver in {zero Domain; same size: default shift with tables,
+	// another custom shift with / without tables, made by NewDomain or by an earlier ReadFrom; another size with / without tables}
+	// x source in {default shift, custom shift} x {with, without precompute}; the size 2^3 and one more size per package get the full
+	// product. `readintotab` (the four table accessors) is NOT generated for the sub-class "receiver holds tables, source serialised
+	// WithoutPrecompute": there the unchanged packages return the receiver's OLD tables from CosetTable() / Twiddles() instead of an
+	// error (reported; the executor and the model answer those lines: model `err err err err`)
+	for _, name := range c10order {
+		f := c10fields[name]
+		q := f.Q()
+		nbytes := f.NBytes()
+		shift := func(not *big.Int) *big.Int {
+			for {
+				s := g.rng.bigBelow(q)
+				if s.Cmp(big.NewInt(1)) > 0 && (not == nil || s.Cmp(not) != 0) && s.Cmp(f.MulGen()) != 0 {
+					if g.rng.intn(3) == 0 {
+						s.SetInt64(int64(2 + g.rng.intn(200)))
+						if not != nil && s.Cmp(not) == 0 || s.Cmp(f.MulGen()) == 0 {
+							continue
+						}
+					}
+					return s
+				}
+			}
+		}
+		logns := []int{3, []int{0, 1, 2, 4, 5, 6}[g.rng.intn(6)]}
+		if g.thorough() {
+			logns = []int{0, 1, 2, 3, 4, 5, 6, 8}
+		}
+		chunks := []int{1 << 20, nbytes, 1, nbytes + 1, 7}
+		cnt := 0
+		for _, logn := range logns {
+			for srcK := 0; srcK < 4; srcK++ {
+				other := logn + 1 + g.rng.intn(3)
+				if logn > 0 && g.rng.coin() {
+					other = g.rng.intn(logn)
+				}
+				var srcShift *big.Int
+				if srcK&1 == 1 {
+					srcShift = shift(nil)
+				}
+				src := c10cfg{logn: logn, dif: true, coset: true, precomp: srcK&2 == 2, shift: srcShift}
+				sh := func() string { return hexBig(shift(srcShift)) }
+				rcvs := []struct {
+					tok    string
+					tables bool
+				}{
+					{"zero", false},
+					{fmt.Sprintf("%x:1:-:n", logn), true},
+					{fmt.Sprintf("%x:1:%s:n", logn, sh()), true},
+					{fmt.Sprintf("%x:0:%s:n", logn, sh()), false},
+					{fmt.Sprintf("%x:1:%s:r", logn, sh()), true},
+					{fmt.Sprintf("%x:0:-:r", logn), false},
+					{fmt.Sprintf("%x:1:%s:n", other, sh()), true},
+					{fmt.Sprintf("%x:0:-:n", other), false},
+					{fmt.Sprintf("%x:1:-:r", other), true},
+				}
+				for _, r := range rcvs {
+					gs, custom := f.MulGen(), "0"
+					if src.shift != nil {
+						gs, custom = src.shift, "1"
+					}
+					emit := func(op string) {
+						g.emit("C10 %s %x %s %s %s %s %x dif 1 %s 0 %s %s %s", op, chunks[cnt%len(chunks)], r.tok, name, hexBig(q), hexBig(f.Omega(logn)), logn,
+							boolStr(src.precomp), hexBig(gs), custom, c10vec(g.c10randVec(f, 1<<logn)))
+						cnt++
+					}
+					emit("readinto")
+					if (src.precomp || !r.tables) && (g.thorough() || logn == 3 || g.rng.coin()) {
+						emit("readintotab")
+					}
+				}
+			}
+		}
+	}
 	// (e') byte level: WriteTo output, ReadFrom on valid / truncated / out-of-range / continued streams
 	for _, name := range c10order {
 		f := c10fields[name]
@@ -714,6 +930,18 @@ func genC10(g *gen) {
 	g.emit("C10 fft bn254 1 1 0 dif 0 1 1 5 0")
 	g.emit("C10 fft nofield 1 1 0 dif 0 1 1 5 0 1")
 	g.emit("C10 frobnicate")
+	if f, ok := c10fields["bn254"]; ok {
+		tail := fmt.Sprintf("bn254 %s %s 1 dif 1 1 0 %s 0 1,2", hexBig(f.Q()), hexBig(f.Omega(1)), hexBig(f.MulGen()))
+		g.emit("C10 readinto 8 zz %s", tail)         // unknown receiver
+		g.emit("C10 readinto 8 1:1:-: %s", tail)     // receiver: how it was made is missing
+		g.emit("C10 readinto 8 1:2:-:n %s", tail)    // receiver: flag
+		g.emit("C10 readinto 8 d:1:-:n %s", tail)    // receiver too large
+		g.emit("C10 readintotab 8 1:1:g:n %s", tail) // receiver: shift not hex
+		// vector length
+		g.emit("C10 readinto 8 zero bn254 %s %s 1 dif 1 1 0 %s 0 1,2,3", hexBig(f.Q()), hexBig(f.Omega(1)), hexBig(f.MulGen()))
+		g.emit("C10 readinto 8 zero")
+		g.emit("C10 readintotab")
+	}
 	g.emit("C10 bitrev bn254 2 1,2,3")
 	g.emit("C10")
 }
